@@ -433,6 +433,16 @@ func (e *Engine) verifyFunction(fc *FuncContract) (*VC, error) {
 			vc.eventCounter(m[1])
 		}
 	}
+	for _, t := range texts {
+		for _, m := range callsRe.FindAllStringSubmatch(t, -1) {
+			if m[2] != "" && e.fnByShort(m[1]) == nil {
+				key := fmt.Sprintf("G_arg_%s_%s", sanitizeID(m[1]), m[2])
+				if _, ok := vc.svSort[key]; !ok {
+					vc.svDeclare(key, "(Array Int Int)")
+				}
+			}
+		}
+	}
 	for name := range vc.eventNames {
 		// declare argument recorders with the callee's parameter types where it can be resolved
 		if target := e.fnByShort(name); target != nil {
@@ -498,9 +508,13 @@ func (e *Engine) verifyFunction(fc *FuncContract) (*VC, error) {
 		}
 	}
 	// K2 exit obligations
-	if vc.usesLocks() && !fc.LocksChange {
-		vc.oblige(exit, "lock-balance", "exit", "every lock taken is released on every exit path (lock state at exit equals lock state at entry)",
-			fmt.Sprintf("(= %s %s)", vc.get(exit, "G_held"), vc.get(vc.entry, "G_held")), fn.Pos())
+	if len(vc.lockTerms) > 0 && !fc.LocksChange {
+		var eqs []string
+		for _, t := range vc.lockTerms {
+			eqs = append(eqs, fmt.Sprintf("(= (select %s %s) (select %s %s))", vc.get(exit, "G_held"), t, vc.get(vc.entry, "G_held"), t))
+		}
+		vc.oblige(exit, "lock-balance", "exit", "every lock taken is released on every exit path (each touched lock has its entry state at exit)",
+			"(and "+strings.Join(eqs, " ")+" true)", fn.Pos())
 	}
 	if fc.Entry {
 		vc.oblige(exit, "monitor", "exit", "every write to a waited-on field is followed by Broadcast before returning (no pending wake-up)",
